@@ -393,7 +393,8 @@ Theorem data_open_torn_gen fs name header cb l c :
     /\ k <= length l /\ length (encode p (firstn k l)) <= c /\ (k < length l -> c < length (encode p (firstn (S k) l)))
     /\ RepD fs' d p (outer header) (outer []) (encode p (firstn k l)) (full_after p None (firstn k l)) (option_map fst (last_opt (firstn k l)))
     /\ of_name (d_file d) = name ++ ext_data /\ of_name (ix_file (d_index d)) = name ++ ext_index
-    /\ (forall g, g <> name ++ ext_data -> g <> name ++ ext_index -> g <> name ++ ext_part -> fs_get fs' g = fs_get fs g).
+    /\ (forall g, g <> name ++ ext_data -> g <> name ++ ext_index -> g <> name ++ ext_part -> fs_get fs' g = fs_get fs g)
+    /\ (fs_get fs (name ++ ext_part) = None -> fs_get fs' (name ++ ext_part) = None).
 Proof.
   intros o W NM Hc Hh H64 GD IS. pose proof K_ge_2 as K2'.
   assert (FI : file_is fs o (outer header) (firstn c (encode p l))) by (split; [exact GD|reflexivity]).
@@ -425,17 +426,20 @@ Proof.
             /\ ix = {| ix_file := {| of_name := name ++ ext_index; of_off := len (outer []) |};
                        ix_entries := es'; ix_last := option_map fst (last_opt es') |}
             /\ fs_get fs2 (name ++ ext_index) = Some (outer [] ++ enc_index es')
-            /\ (forall g, g <> name ++ ext_index -> g <> name ++ ext_part -> fs_get fs2 g = fs_get fs1 g)).
-  { assert (REBUILD : forall fsx, (forall g, g <> name ++ ext_index -> fs_get fsx g = fs_get fs1 g) ->
+            /\ (forall g, g <> name ++ ext_index -> g <> name ++ ext_part -> fs_get fs2 g = fs_get fs1 g)
+            /\ (fs_get fs1 (name ++ ext_part) = None -> fs_get fs2 (name ++ ext_part) = None)).
+  { assert (PI : name ++ ext_part <> name ++ ext_index) by apply names_part_index.
+    assert (REBUILD : forall fsx, (forall g, g <> name ++ ext_index -> fs_get fsx g = fs_get fs1 g) ->
               exists fs2 ix, create_from_byteseries o p name fsx = (fs2, Ok ix)
                 /\ ix = {| ix_file := {| of_name := name ++ ext_index; of_off := len (outer []) |};
                            ix_entries := es'; ix_last := option_map fst (last_opt es') |}
                 /\ fs_get fs2 (name ++ ext_index) = Some (outer [] ++ enc_index es')
-                /\ (forall g, g <> name ++ ext_index -> g <> name ++ ext_part -> fs_get fs2 g = fs_get fs1 g)).
+                /\ (forall g, g <> name ++ ext_index -> g <> name ++ ext_part -> fs_get fs2 g = fs_get fs1 g)
+                /\ fs_get fs2 (name ++ ext_part) = None).
     { intros fsx FR. assert (FDx : file_is fsx o (outer header) (encode p l')).
       { eapply file_is_other; [exact F1|]. apply FR. exact ND2. }
-      destruct (create_from_byteseries_ok p fsx o (outer header) name l' W' FDx ND1 ND2) as (fs2 & ix & E & GI & IF & IE & IL & _ & OT).
-      exists fs2, ix. split; [exact E|]. rewrite SL' in GI, IE, IL. split; [|split; [exact GI|]].
+      destruct (create_from_byteseries_ok p fsx o (outer header) name l' W' FDx ND1 ND2) as (fs2 & ix & E & GI & IF & IE & IL & PN & OT).
+      exists fs2, ix. split; [exact E|]. rewrite SL' in GI, IE, IL. split; [|split; [exact GI|split; [|exact PN]]].
       - destruct ix as [a b c0]. cbn [ix_file ix_entries ix_last] in *. subst. reflexivity.
       - intros g N1 N2. rewrite OT by assumption. apply FR. exact N1. }
     destruct IS as [ABS|[ci PRE]].
@@ -444,8 +448,8 @@ Proof.
       assert (IO : forall a b, index_open name a b fs1 = (fs1, Err ENotFound)).
       { intros a b. unfold index_open, fwh_open. unfold mbind at 1. unfold mbind at 1. unfold exists_file, fs_mem.
         unfold fs_get in G1. destruct (fs_raw fs1 (name ++ ext_index)); [discriminate|]. reflexivity. }
-      destruct (REBUILD fs1 ltac:(intros; reflexivity)) as (fs2 & ix & E & A1 & A2 & A3).
-      exists fs2, ix. split; [|repeat split; assumption]. eapply mcatch_err_handled; [apply IO|exact E].
+      destruct (REBUILD fs1 ltac:(intros; reflexivity)) as (fs2 & ix & E & A1 & A2 & A3 & A4).
+      exists fs2, ix. split; [|split; [exact A1|split; [exact A2|split; [exact A3|intros _; exact A4]]]]. eapply mcatch_err_handled; [apply IO|exact E].
     - rewrite SL in PRE.
       assert (G1 : fs_get fs1 (name ++ ext_index) = Some (firstn ci (outer [] ++ enc_index (secs_from p None 0 l)))).
       { rewrite O1 by (apply not_eq_sym; exact ND2). exact PRE. }
@@ -458,9 +462,9 @@ Proof.
         destruct (index_open_prefix_empty fs1 name _ ci (full_after p None []) G1) as (fsa & r & IO & OA & RES).
         destruct r as [ix|er| |]; try contradiction.
         * destruct RES as [EI GI]. exists fsa, ix. split; [apply mcatch_ok; exact IO|]. rewrite ES0. split; [exact EI|]. split; [exact GI|].
-          intros g N1 N2. apply OA. exact N1.
-        * destruct (REBUILD fsa OA) as (fs2 & ix & E & A1 & A2 & A3).
-          exists fs2, ix. split; [|repeat split; assumption]. eapply mcatch_err_handled; [exact IO|exact E].
+          split; [intros g N1 N2; apply OA; exact N1|]. intros PNone. rewrite OA by exact PI. exact PNone.
+        * destruct (REBUILD fsa OA) as (fs2 & ix & E & A1 & A2 & A3 & A4).
+          exists fs2, ix. split; [|split; [exact A1|split; [exact A2|split; [exact A3|intros _; exact A4]]]]. eapply mcatch_err_handled; [exact IO|exact E].
       + 
         assert (NE' : l' <> []) by (rewrite El'; discriminate).
         destruct (full_after_cons_none p x0 t0) as [t FA]. rewrite <- El' in FA.
@@ -517,17 +521,18 @@ Proof.
              exists fsa, ix. split; [apply mcatch_ok; exact IO|]. split.
              ++ rewrite EI. f_equal. pose proof (last_sec_full p l' None 0) as LS. rewrite FA in LS. fold es' in LS.
                 destruct (last_opt es') as [e|]; [inversion LS; reflexivity|discriminate].
-             ++ split; [exact GI|]. intros g N1 N2. apply OA. exact N1.
-          -- destruct (REBUILD fsa OA) as (fs2 & ix & E & A1 & A2 & A3).
-             exists fs2, ix. split; [|repeat split; assumption]. eapply mcatch_err_handled; [exact IO|exact E]. }
-  destruct IDX as (fs2 & ix & IO & EIX & GI2 & O2).
+             ++ split; [exact GI|]. split; [intros g N1 N2; apply OA; exact N1|]. intros PNone. rewrite OA by exact PI. exact PNone.
+          -- destruct (REBUILD fsa OA) as (fs2 & ix & E & A1 & A2 & A3 & A4).
+             exists fs2, ix. split; [|split; [exact A1|split; [exact A2|split; [exact A3|intros _; exact A4]]]]. eapply mcatch_err_handled; [exact IO|exact E]. }
+  destruct IDX as (fs2 & ix & IO & EIX & GI2 & O2 & P2).
   assert (F2 : file_is fs2 o (outer header) (encode p l')).
   { eapply file_is_other; [exact F1|]. apply O2; [exact ND2|exact ND1]. }
   rewrite <- SL' in EIX, GI2.
   destruct (data_open_from_parts p fs fs1 fs2 name header cb l' ix W' FW F1 LM IO EIX GI2 F2) as (d & DO & RD & N1 & N2).
   exists fs2, d, k. split; [exact DO|]. split; [exact Hk|]. split; [exact LE1|]. split; [exact MX1|]. split; [exact RD|].
   split; [exact N1|]. split; [exact N2|].
-  intros g A1 A2 A3. rewrite O2 by assumption. apply O1. exact A1.
+  split; [intros g A1 A2 A3; rewrite O2 by assumption; apply O1; exact A1|].
+  intros PNone. apply P2. rewrite O1 by (apply not_eq_sym; exact ND1). exact PNone.
 Qed.
 
 (* ---- at the level of the builder, every payload size ---- *)
@@ -543,13 +548,14 @@ Theorem torn_open_gen_names fs name uhdr popt hdropt cb l c :
     /\ k <= length l /\ length (encode p (firstn k l)) <= c /\ (k < length l -> c < length (encode p (firstn (S k) l)))
     /\ RepH fs' s p (outer header) (outer []) (firstn k l) /\ s_cb s = cb
     /\ (forall g, g <> name ++ ext_data -> g <> name ++ ext_index -> g <> name ++ ext_part -> fs_get fs' g = fs_get fs g)
-    /\ of_name (d_file (s_data s)) = name ++ ext_data /\ of_name (ix_file (d_index (s_data s))) = name ++ ext_index.
+    /\ of_name (d_file (s_data s)) = name ++ ext_data /\ of_name (ix_file (d_index (s_data s))) = name ++ ext_index
+    /\ (fs_get fs (name ++ ext_part) = None -> fs_get fs' (name ++ ext_part) = None).
 Proof.
   intros header W NM Hc Hh H64 Hp GD IS Hopt HO.
   destruct (fwh_open_ok fs (name ++ ext_data) header (firstn c (encode p l)) Hh GD) as [FO _].
-  destruct (data_open_torn_gen fs name header cb l c W NM Hc Hh H64 GD IS) as (fs' & d & k & DO & Hk & LE & MX & RD & N1 & N2 & OT).
+  destruct (data_open_torn_gen fs name header cb l c W NM Hc Hh H64 GD IS) as (fs' & d & k & DO & Hk & LE & MX & RD & N1 & N2 & OT & PT).
   assert (Wk : wf_series p (firstn k l)) by (apply wf_firstn'; exact W).
-  exists fs'. eexists. exists k. split; [|split; [exact Hk|split; [exact LE|split; [exact MX|split; [|split; [|split; [exact OT|split]]]]]]].
+  exists fs'. eexists. exists k. split; [|split; [exact Hk|split; [exact LE|split; [exact MX|split; [|split; [|split; [exact OT|split; [|split; [|exact PT]]]]]]]]].
   - unfold builder_open, series_open. erewrite mbind_ok.
     2:{ erewrite mbind_ok by exact FO. cbv iota beta.
         unfold lift at 1. erewrite mbind_ok by (unfold header; rewrite (header_roundtrip (N.of_nat p) uhdr popt Hp Hopt); reflexivity). cbv iota beta.
